@@ -518,6 +518,13 @@ class Parser:
                     self.holes.append(v[1])
                 st.pragma_value = v[1]
                 st.kind = 'pragma_set'
+        elif t == ('kw', 'DROP') and self.peek(1) in (('kw', 'TRIGGER'), ('kw', 'TABLE')):
+            self.next()
+            what = self.next()[1]
+            if self.eat_kw('IF'):
+                self.expect_kw('EXISTS')
+            st.kind = 'drop_trigger' if what == 'TRIGGER' else 'drop_table'
+            st.name = self.ident() if self.peek()[0] != 'eof' else None
         elif t == ('kw', 'DROP'):
             self.next()
             self.expect_kw('INDEX')
